@@ -113,6 +113,14 @@ coordinates and data and the function values; concatenation, then the constructo
 def elemwise2 (d nA nB nOut : Nat) : Nat :=
   (nA + nB) + 2 * (nA + nB) + 3 * ((d + 1) * (nA + nB)) + (d + 1) * nOut + sort d nOut
 
+/-- a MIXED element-wise operation: one sparse operand with `n` stored elements in `d` dimensions, dense `ndarray` operands whose broadcast
+shape AMONG THEMSELVES has `D` elements (`ndarray_shape`: the size of the dense operand when there is one), `m` stored elements in the
+result.  `_get_fill_value` evaluates `func(fill, dense…)` once on the dense operands as they are (D) and compares it with the fill value
+(`equivalent`: D); the only mask (sparse operand matched) gathers `np.broadcast_to(dense, shape)[coords]` — a zero-stride VIEW indexed at
+the stored coordinates (n) —, applies the function (n), the prune mask (n), `coords[:, mask]` (d·m), `data[mask]` (m).  Nothing of the
+size of the broadcast shape is written: the dense operand is never expanded to it. -/
+def elemwiseMixed (d n m D : Nat) : Nat := D + D + n + n + n + d * m + m
+
 /-- `reduce` over `axes`: transpose (kept axes first), reshape to 2-d, `_grouped_reduce` (`reduceat`: g groups; `counts`,
 `inv_idx`: g each; the flag array: n), fill correction (g), 1-d result constructed with `prune=True`, reshape back. -/
 def reduce (x : COO Int) (kept axes : List Nat) (g m : Nat) : Nat :=
